@@ -17,6 +17,9 @@ fi
 echo "--- demo with the change"; (cd "$WT" && PYTHONPATH="$WT" /venv/bin/python -W ignore "$D/demo.py" 2>&1 | tail -3; echo "exit=${PIPESTATUS[0]}")
 for c in "$@"; do
   echo "--- check $c with the change"
-  VERIF_REPO="$WT" VERIF_EVIDENCE_DIR="$(mktemp -d /tmp/verif-mut-evidence-XXXXXX)" ./run $c 2>&1 | grep -E "VIOLATION|counterexample|ENGINE|tier=" | head -4 | cut -c1-400
-  echo "check_exit=${PIPESTATUS[0]}"
+  out="$(VERIF_REPO="$WT" VERIF_EVIDENCE_DIR="$(mktemp -d /tmp/verif-mut-evidence-XXXXXX)" ./run $c 2>&1)"; rc=$?
+  echo "$out" | grep -E "^VIOLATION" | head -2
+  echo "$out" | grep -E "counterexample|ENGINE|INCONCLUSIVE" | head -3 | cut -c1-400
+  echo "$out" | grep -E "tier=" | cut -c1-300
+  echo "check_exit=$rc"
 done
